@@ -629,6 +629,10 @@ func execWeird(c *core.Ctx, cs Case) {
 		checkWalks(c, &failed, pre, in, post, &t, i, o)
 	}
 	classify(c, m, maxSize, false)
+	if failed {
+		// the same operations under the natural order, as a case of its own (compared with the model too)
+		exec(c, Case{Elem: "int", Ops: cs.Ops})
+	}
 }
 
 // ---------------------------------------------------------------------------
